@@ -5976,6 +5976,14 @@ class CodegenCtx:
                 return True
         return False
 
+    def _emitted_transitions_pointing_to(self, target_state: DFState):
+        """
+        All transitions pointing to the state from any state we emit code for (unlike dfa.transitions_pointing_to, this
+        includes states which are not reachable, since without -fremove-inaccesible-states those still get a case body)
+        """
+
+        return [t for state in self.dfa.states for t in state.all_transitions() if t.target == target_state]
+
     def _generate_feed_implementation(self):
         result = Outputter()
 
@@ -5997,11 +6005,11 @@ class CodegenCtx:
                 # Emit the case label
                 contents.add(f"case {idx}:")
                 # Emit goto target for fallthroughs if anything falls here (these are separate to make it slightly easier to read)
-                if any(x.is_fallthrough and self._transition_will_directly_jump(x, excl_fall=True) for x in self.dfa.transitions_pointing_to(state)):
+                if any(x.is_fallthrough and self._transition_will_directly_jump(x, excl_fall=True) for x in self._emitted_transitions_pointing_to(state)):
                     contents.add(f"fall_{idx}:")
                 # If any transition can directly jump into this case, emit a label for it to do so. We don't really _need_ these checks
                 # but gcc complains about unused labels in -Wall.
-                if any(self._transition_will_directly_jump(x) for x in self.dfa.transitions_pointing_to(state) if x.on_values != {DFTransition.End}):
+                if any(self._transition_will_directly_jump(x) for x in self._emitted_transitions_pointing_to(state) if x.on_values != {DFTransition.End}):
                     contents.add(f"jpto_{idx}:")
                 with contents as state_body:
                     # Is this a normal state
@@ -6048,7 +6056,7 @@ class CodegenCtx:
                 # Emit the case label
                 contents.add(f"case {idx}:")
                 # Emit goto target for fallthroughs if anything falls here (these are separate to make it slightly easier to read)
-                if any(x.is_fallthrough for x in self.dfa.transitions_pointing_to(state)):
+                if any(x.is_fallthrough for x in self._emitted_transitions_pointing_to(state)):
                     contents.add(f"fall_{idx}:")
                 with contents as state_body:
                     # Is this a normal state
